@@ -314,7 +314,7 @@ def run(a, res):
         sq = Squid(a.work, conf=COMMON + conf, cache_dirs=cds, smp=smp)
         wit = {"seed": cases[0]["seed"], "case": cases[0]["n"]}
         try:
-            sq.start()
+            sq.start(timeout=150)
             with ThreadPoolExecutor(2) as ex:
                 list(ex.map(lambda c: one(c, sq), cases))
             time.sleep(0.3)
